@@ -1,1 +1,759 @@
-fn main() { eprintln!("not built yet"); std::process::exit(2) }
+//! E2 `crashsim`: crash / power-loss image simulator, log-mutation fuzzer and fault sweep.
+//! Serves C02, C03 (crash lower bound), C12, C13, C16.
+
+mod child;
+mod history;
+mod image;
+mod interpose;
+mod mutate;
+mod oracle;
+
+use child::{run_child, Outcome};
+use history::{gen_plan, record, Act, Recorded};
+use parity_db::Db;
+use pv::{
+	dbutil::{self, Step},
+	json::J,
+	run::main_entry,
+	scratch::Scratch,
+	Ctx, Report, Rng, Spec, Tier,
+};
+use std::{collections::BTreeMap, path::Path, time::Duration};
+
+#[derive(Clone, Copy, PartialEq, Eq, Debug)]
+pub enum Mode {
+	C02,
+	C03,
+	C12,
+	C13,
+	C16,
+}
+
+fn mode_of(p: &str) -> Option<Mode> {
+	Some(match p {
+		"C02" => Mode::C02,
+		"C03" => Mode::C03,
+		"C12" => Mode::C12,
+		"C13" => Mode::C13,
+		"C16" => Mode::C16,
+		_ => return None,
+	})
+}
+
+fn spec_for(prop: &str, _tier: Tier) -> Option<Spec> {
+	let m = mode_of(prop)?;
+	let common = "A case is one seeded history (commits + pipeline steps + restarts over one of 8 column layouts: hash, hash+rc, btree, multitree, mixed 3-column, index growth, btree+rc, multitree with counted roots), recorded once without faults to obtain the prefix states S_0..S_n, then re-run in forked children up to a crash instant. ";
+	Some(match m {
+		Mode::C02 => Spec::new("C02", "fault_enumeration", &format!("{}Crash instants: every boundary between two actions, and try_io boundary k of a pipeline step / drop / open (k sampled geometrically in quick, every k up to 400 in thorough), plus a second crash during the recovery of an image. At each instant the directory is copied (process crash: volatile content of every file) and reopened in a child: open must succeed, the state must equal S_m for some m <= commits issued, and a continuation workload must still follow the model. evaluations = oracle comparisons; distinct_nontrivial = distinct (layout, action kind, pipeline shape, k bucket, events seen inside the interrupted action) classes with at least one commit issued.", common))
+			.require("images", 200)
+			.require("images_inside_step", 50)
+			.require("images_needing_replay", 20)
+			.require("nested_recovery_crashes", 5)
+			.require("cut_after_log_write", 1)
+			.require("cut_after_log_sync", 1)
+			.require("cut_after_table_flush", 1)
+			.require("cut_after_log_truncate", 1)
+			.require("cut_after_log_unlink", 1)
+			.require("cut_during_open", 1)
+			.require("cut_during_drop", 1)
+			.require("layouts", 6)
+			.assume("the fault injector's try_io boundaries are dense enough to stand for 'between any two file operations' (DESIGN section 0)")
+			.assume("single client thread; no tree reader is held"),
+		Mode::C03 => Spec::new("C03", "fault_enumeration", &format!("{}Same images as C02 but judged against the durability lower bound: m >= number of commits whose WAL record was written before the last successful flush_logs (fdatasync) preceding the crash instant.", common))
+			.require("images", 100)
+			.require("images_with_synced_lower_bound", 30)
+			.assume("crash part of C03 (the clean-shutdown part is decided by the stepping engine in the same check)"),
+		Mode::C12 => Spec::new("C12", "fault_enumeration", &format!("{}The harness binary interposes fsync/fdatasync/msync/ftruncate/unlink/read/write, keeps a durable shadow of every file (content at its last sync) and builds power-loss images: durable content + a subset of the differing 4 KiB pages (none, all, each page alone, all but one, random subsets) + a prefix of the unsynced log tail (record boundaries +-1, random). Recovery must give S_m with synced <= m <= issued. In addition two ordering rules are evaluated on the real syscalls of every un-faulted run: R1 a log is not read for enactment while bytes appended to it were never synced; R2 when a log is truncated or unlinked no table/index/ref-count byte differs from its last synced content.", common))
+			.require("power_images", 200)
+			.require("images_with_dirty_pages", 30)
+			.require("images_with_unsynced_log_tail", 30)
+			.require("r1_checks", 10)
+			.require("r2_checks", 10)
+			.require("sync_events", 50)
+			.assume("directory operations (create, unlink, size change) are atomic and immediately durable; the metadata file is durable once written")
+			.assume("the first 16 KiB of index files (statistics, deliberately unsynchronised) are excluded from page tearing and from R2"),
+		Mode::C13 => Spec::new("C13", "fault_enumeration", &format!("{}Base image: tables hold S_j, 1-4 log files hold later records that were never applied. Mutations of the log files: truncation at every offset (small logs) or sampled offsets, single-bit flips at every header byte and sampled payload bytes, multi-byte overwrites, appended garbage / a valid-looking BEGIN, duplicated / swapped / deleted / zero-length / sub-header-length log files, a stale log of an earlier generation. Open must not panic and must give S_m with j <= m <= (commits before the first touched record).", common))
+			.require("mutations", 300)
+			.require("mut_truncate", 50)
+			.require("mut_bitflip", 50)
+			.require("mut_append", 5)
+			.require("mut_file_level", 10)
+			.assume("CRC-32 detects all single-bit flips and bursts <= 32 bits; random multi-byte damage escaping with probability 2^-32 is ignored"),
+		Mode::C16 => Spec::new("C16", "fault_enumeration", &format!("{}A fault is injected at try_io boundary k of a pipeline step (persisting from then on); the harness reports the step error the way a background worker does, then: reads must return the latest committed data, a new commit must be refused with a background error, drop must return, and after the fault is cleared reopening must give S_m with synced <= m <= issued.", common))
+			.require("faults_injected", 200)
+			.require("commit_refused_checks", 100)
+			.require("reopen_after_fault", 100)
+			.require("fault_in_process_commits", 10)
+			.require("fault_in_enact", 10)
+			.require("fault_in_flush", 5)
+			.require("fault_in_clean", 5)
+			.require("fault_in_open", 5),
+	})
+}
+
+fn shard(ctx: &Ctx, rep: &mut Report) {
+	let mode = mode_of(&ctx.prop).expect("mode");
+	if let Some(j) = &ctx.replay {
+		let case_seed = j.get("case_seed").and_then(|x| x.as_u64()).expect("case_seed");
+		let variant = j.get("variant").and_then(|x| x.as_u64()).unwrap_or(0);
+		run_case(ctx, rep, mode, case_seed, variant, j.get("target").cloned());
+		return
+	}
+	let mut seeder = Rng::new(ctx.seed ^ 0xE2E2);
+	let max_cases = ctx.tier.pick(40, 600);
+	let mut i = 0u64;
+	while i < max_cases && ctx.elapsed_frac() < 0.8 {
+		let case_seed = seeder.next() >> 2;
+		let variant = ctx.shard as u64 + i * ctx.nshards as u64;
+		run_case(ctx, rep, mode, case_seed, variant, None);
+		rep.cases += 1;
+		ctx.checkpoint(rep);
+		i += 1;
+		if rep.get("violations_raw") >= 12 {
+			break
+		}
+	}
+}
+
+fn main() {
+	main_entry(spec_for, shard)
+}
+
+/// What a crash child reports back.
+fn merge_child(rep: &mut Report, j: &J) {
+	if let Some(m) = j.get("counts").and_then(|x| x.as_obj()) {
+		for (k, v) in m {
+			rep.count(k, v.as_u64().unwrap_or(0));
+		}
+	}
+	if let Some(a) = j.get("seen").and_then(|x| x.as_arr()) {
+		for s in a {
+			if let Some(s) = s.as_str() {
+				rep.seen(s);
+			}
+		}
+	}
+	rep.evaluations += j.get("evals").and_then(|x| x.as_u64()).unwrap_or(0);
+}
+
+pub struct Target {
+	pub act: usize,
+	/// "step", "drop", "open", "boundary"
+	pub phase: &'static str,
+	pub k: u64,
+}
+
+fn run_case(ctx: &Ctx, rep: &mut Report, mode: Mode, case_seed: u64, variant: u64, only: Option<J>) {
+	let mut rng = Rng::new(case_seed);
+	let plan = gen_plan(&mut rng, variant, ctx.tier, mode == Mode::C13);
+	let desc = format!("{:?} case_seed={} variant={} layout={} cfg=[{}] acts={}", mode, case_seed, variant, plan.kind, plan.cfg.describe(), plan.acts.len());
+	ctx.mark(&desc);
+	let work = Scratch::new("cs");
+	// ---- recording run (no faults), in a child so that a library panic cannot take the shard down
+	let rec_dir = work.path.join("rec");
+	let recorded = {
+		let r = pv::scratch::catch(|| record(&plan, &rec_dir));
+		match r {
+			Ok(Ok(r)) => r,
+			Ok(Err(e)) => {
+				rep.violation(
+					format!("scenario={:?};failure=fault_free_run_failed;layout={}", mode, plan.kind),
+					format!("the fault-free recording run failed: {}", e),
+					J::obj().set("case", J::s(desc.clone())).set("case_seed", J::i(case_seed)).set("variant", J::i(variant)).set("shard_seed", J::i(ctx.seed)),
+				);
+				return
+			},
+			Err(p) => {
+				rep.violation(
+					format!("scenario={:?};failure=panic;site={};layout={}", mode, pv::scratch::panic_site(&p), plan.kind),
+					format!("panic in the fault-free recording run: {}", p),
+					J::obj().set("case", J::s(desc.clone())).set("case_seed", J::i(case_seed)).set("variant", J::i(variant)).set("shard_seed", J::i(ctx.seed)),
+				);
+				return
+			},
+		}
+	};
+	let _ = std::fs::remove_dir_all(&rec_dir);
+	rep.count("layouts", if rep.get(&format!("layout_{}", plan.kind)) == 0 { 1 } else { 0 });
+	rep.count(&format!("layout_{}", plan.kind), 1);
+	if rep.samples.len() < 2 {
+		rep.sample(
+			J::obj()
+				.set("case", J::s(desc.clone()))
+				.set("actions", J::strs(recorded.acts.iter().take(30).map(|a| {
+					let s = a.show();
+					if s.len() > 200 { format!("{}...", &s[..200]) } else { s }
+				})))
+				.set("commits", J::i(recorded.states.len() as u64 - 1)),
+		);
+	}
+	match mode {
+		Mode::C13 => mutate::run(ctx, rep, &recorded, &work, &mut rng, &desc, case_seed, variant),
+		_ => crash_targets(ctx, rep, mode, &recorded, &work, &mut rng, &desc, case_seed, variant, only),
+	}
+}
+
+fn k_samples(rng: &mut Rng, tier: Tier) -> Vec<u64> {
+	match tier {
+		Tier::Thorough => (0..400).collect(),
+		Tier::Quick => {
+			let mut v = vec![0u64, 1, 2, 3];
+			let mut x = 4u64;
+			while x < 400 {
+				v.push(x + rng.below((x / 3).max(1)));
+				x = x * 3 / 2 + 1;
+			}
+			v
+		},
+	}
+}
+
+#[allow(clippy::too_many_arguments)]
+fn crash_targets(ctx: &Ctx, rep: &mut Report, mode: Mode, rec: &Recorded, work: &Scratch, rng: &mut Rng, desc: &str, case_seed: u64, variant: u64, only: Option<J>) {
+	// candidate acts
+	let mut targets: Vec<(usize, &'static str)> = vec![];
+	for (i, a) in rec.acts.iter().enumerate() {
+		match a {
+			Act::Step(_) => targets.push((i, "step")),
+			Act::Restart => {
+				targets.push((i, "drop"));
+				targets.push((i, "open"));
+			},
+			Act::Commit(_) => {},
+		}
+		if mode != Mode::C16 {
+			targets.push((i, "boundary"));
+		}
+	}
+	if let Some(t) = &only {
+		let a = t.get("act").and_then(|x| x.as_u64()).unwrap_or(0) as usize;
+		let ph = t.get("phase").and_then(|x| x.as_str()).unwrap_or("step").to_string();
+		let k = t.get("k").and_then(|x| x.as_u64()).unwrap_or(0);
+		let ph: &'static str = match ph.as_str() {
+			"drop" => "drop",
+			"open" => "open",
+			"boundary" => "boundary",
+			_ => "step",
+		};
+		one_target(ctx, rep, mode, rec, work, rng, desc, case_seed, variant, a, ph, k);
+		return
+	}
+	// quick: a sample of the acts; thorough: all
+	let max_targets = ctx.tier.pick(14, 10_000);
+	if targets.len() > max_targets {
+		rng.shuffle(&mut targets);
+		targets.truncate(max_targets);
+		targets.sort();
+	}
+	for (act, phase) in targets {
+		if !ctx.time_left() {
+			break
+		}
+		if phase == "boundary" {
+			one_target(ctx, rep, mode, rec, work, rng, desc, case_seed, variant, act, phase, 0);
+			continue
+		}
+		for k in k_samples(rng, ctx.tier) {
+			ctx.progress();
+			let completed = one_target(ctx, rep, mode, rec, work, rng, desc, case_seed, variant, act, phase, k);
+			if completed || !ctx.time_left() {
+				break
+			}
+		}
+		if rep.get("violations_raw") >= 12 {
+			break
+		}
+	}
+}
+
+/// Returns true when the action completed without reaching boundary k (no more boundaries).
+#[allow(clippy::too_many_arguments)]
+fn one_target(ctx: &Ctx, rep: &mut Report, mode: Mode, rec: &Recorded, work: &Scratch, rng: &mut Rng, desc: &str, case_seed: u64, variant: u64, act: usize, phase: &'static str, k: u64) -> bool {
+	let sub_seed = rng.next() >> 2;
+	let dir = work.path.join("run");
+	let _ = std::fs::remove_dir_all(&dir);
+	let tag = format!("a{}-{}-k{}", act, phase, k);
+	let out = run_child(&work.path, "child", Duration::from_secs(60), || crash_child(mode, rec, &dir, act, phase, k, sub_seed, ctx.tier));
+	let _ = std::fs::remove_dir_all(&dir);
+	let _ = std::fs::remove_dir_all(work.path.join("run.shadow"));
+	let _ = std::fs::remove_dir_all(work.path.join("img"));
+	let replay = |extra: &str| {
+		J::obj()
+			.set("engine", J::s("crashsim"))
+			.set("case", J::s(desc.to_string()))
+			.set("case_seed", J::i(case_seed))
+			.set("variant", J::i(variant))
+			.set("shard_seed", J::i(ctx.seed))
+			.set("target", J::obj().set("act", J::i(act as u64)).set("phase", J::s(phase)).set("k", J::i(k)))
+			.set("action", J::s(rec.acts[act].show().chars().take(300).collect::<String>()))
+			.set("shape_before", J::s(rec.shape_before[act].clone()))
+			.set("note", J::s(extra.to_string()))
+	};
+	match out {
+		Outcome::Done(j) => {
+			if let Some(p) = j.get("panic").and_then(|x| x.as_str()) {
+				rep.violation(
+					format!("scenario={:?};failure=panic;site={};phase={}", mode, pv::scratch::panic_site(p), phase),
+					format!("panic in the child at {}: {}", tag, p),
+					replay("panic"),
+				);
+				return true
+			}
+			merge_child(rep, &j);
+			if let Some(a) = j.get("violations").and_then(|x| x.as_arr()) {
+				for v in a {
+					let sig = v.get("sig").and_then(|x| x.as_str()).unwrap_or("failure=unknown");
+					let detail = v.get("detail").and_then(|x| x.as_str()).unwrap_or("");
+					rep.violation(
+						format!("scenario={:?};{};layout={};phase={}", mode, sig, rec.kind, phase),
+						format!("{} [crash at act {} ({}) boundary {} of {}]", detail, act, rec.acts[act].show().chars().take(80).collect::<String>(), k, phase),
+						replay(v.get("image").and_then(|x| x.as_str()).unwrap_or("")),
+					);
+				}
+			}
+			j.get("completed").and_then(|x| x.as_bool()).unwrap_or(false)
+		},
+		Outcome::Died(how, ph) => {
+			rep.violation(
+				format!("scenario={:?};failure=process_abort;phase={}", mode, phase),
+				format!("child died ({}) at {} during [{}]", how, tag, ph),
+				replay(&ph),
+			);
+			true
+		},
+		Outcome::Timeout(ph) => {
+			if mode == Mode::C16 && ph.starts_with("drop after fault") {
+				rep.violation(
+					format!("scenario={:?};failure=hang_on_drop_after_fault", mode),
+					format!("drop did not return within 60 s after an injected fault at {}", tag),
+					replay(&ph),
+				);
+			} else {
+				rep.inconclusive(format!("child timed out at {} during [{}] ({})", tag, ph, desc));
+			}
+			true
+		},
+	}
+}
+
+fn events_delta(before: &BTreeMap<&'static str, u64>, after: &BTreeMap<&'static str, u64>) -> Vec<&'static str> {
+	let mut v = vec![];
+	for (k, a) in after {
+		if *a > before.get(k).copied().unwrap_or(0) {
+			v.push(*k);
+		}
+	}
+	v
+}
+
+/// Child: re-run the prefix, crash at the target, build and judge images.
+#[allow(clippy::too_many_arguments)]
+fn crash_child(mode: Mode, rec: &Recorded, dir: &Path, act: usize, phase: &'static str, k: u64, sub_seed: u64, tier: Tier) -> J {
+	let mut rng = Rng::new(sub_seed);
+	let power = mode == Mode::C12;
+	let shadow = dir.with_extension("shadow");
+	interpose::start(dir, &shadow, power);
+	let opts = rec.cfg.options(dir);
+	let mut counts: BTreeMap<String, u64> = BTreeMap::new();
+	let mut seen: Vec<String> = vec![];
+	let mut violations: Vec<J> = vec![];
+	let mut evals = 0u64;
+	let mut bump = |c: &mut BTreeMap<String, u64>, k: &str, n: u64| *c.entry(k.to_string()).or_insert(0) += n;
+
+	child::phase("re-run prefix");
+	interpose::set_in_open(true);
+	let mut db = Some(Db::open_or_create(&opts).expect("open_or_create in re-run"));
+	interpose::set_in_open(false);
+	// log record boundaries per file, for unsynced-tail cuts
+	let mut boundaries: BTreeMap<String, Vec<u64>> = BTreeMap::new();
+	for (i, a) in rec.acts.iter().enumerate().take(act) {
+		let d = db.as_ref().unwrap();
+		match a {
+			Act::Commit(tx) => {
+				d.commit_changes(tx.iter().map(|o| o.to_db()).collect::<Vec<_>>()).expect("commit in re-run");
+			},
+			Act::Step(s) => {
+				dbutil::do_step(d, *s).expect("step in re-run");
+			},
+			Act::Restart => {
+				dbutil::make_drop_legal(d).expect("pre-drop in re-run");
+				drop(db.take());
+				interpose::set_in_open(true);
+				db = Some(Db::open(&opts).expect("reopen in re-run"));
+				interpose::set_in_open(false);
+			},
+		}
+		for (n, s) in &rec.log_sizes_after[i] {
+			let b = boundaries.entry(n.clone()).or_default();
+			if b.last() != Some(s) {
+				b.push(*s);
+			}
+		}
+	}
+	let events_before = interpose::tracker().map(|t| t.counts.clone()).unwrap_or_default();
+	let files_before: Vec<String> = dbutil::list_files(dir).into_iter().map(|f| f.0).collect();
+	let lo = match mode {
+		Mode::C02 => 0,
+		_ => rec.synced_before[act],
+	};
+	let hi = rec.commits_before[act] + if matches!(rec.acts[act], Act::Commit(_)) && phase == "boundary" { 1 } else { 0 };
+	let mut completed = false;
+	let mut fault_err: Option<parity_db::Error> = None;
+	child::phase(&format!("interrupted action {} phase {} k {}", act, phase, k));
+	match (phase, &rec.acts[act]) {
+		("boundary", a) => {
+			// no fault: perform the action, the crash instant is right after it
+			let d = db.as_ref().unwrap();
+			match a {
+				Act::Commit(tx) => d.commit_changes(tx.iter().map(|o| o.to_db()).collect::<Vec<_>>()).expect("commit"),
+				Act::Step(s) => dbutil::do_step(d, *s).expect("step"),
+				Act::Restart => {
+					dbutil::make_drop_legal(d).expect("pre-drop");
+					drop(db.take());
+					interpose::set_in_open(true);
+					db = Some(Db::open(&opts).expect("reopen"));
+					interpose::set_in_open(false);
+				},
+			}
+			bump(&mut counts, "images_at_action_boundary", 1);
+		},
+		("step", Act::Step(s)) => {
+			let d = db.as_ref().unwrap();
+			parity_db::set_number_of_allowed_io_operations(k as usize);
+			let r = dbutil::do_step(d, *s);
+			parity_db::set_number_of_allowed_io_operations(usize::MAX);
+			match r {
+				Ok(()) => completed = true,
+				Err(e) => fault_err = Some(e),
+			}
+		},
+		("drop", Act::Restart) => {
+			let d = db.take().unwrap();
+			dbutil::make_drop_legal(&d).expect("pre-drop");
+			parity_db::set_number_of_allowed_io_operations(k as usize);
+			drop(d);
+			parity_db::set_number_of_allowed_io_operations(usize::MAX);
+			bump(&mut counts, "cut_during_drop", 1);
+			// drop swallows errors, so whether boundary k existed is not observable; drop of a
+			// legal state has at most a few hundred boundaries: the caller stops on `completed`
+			completed = k > 150;
+		},
+		("open", Act::Restart) => {
+			let d = db.take().unwrap();
+			dbutil::make_drop_legal(&d).expect("pre-drop");
+			// leave work for the recovery: do not drop cleanly, crash-copy instead
+			std::mem::forget(d);
+			let pre = dir.with_extension("pre");
+			interpose::quiet(|| pv::scratch::copy_dir(dir, &pre).expect("copy"));
+			// the image `pre` is a process-crash image before the restart; recover it with a fault
+			let popts = rec.cfg.options(&pre);
+			parity_db::set_number_of_allowed_io_operations(k as usize);
+			let r = pv::scratch::catch(|| Db::open(&popts));
+			parity_db::set_number_of_allowed_io_operations(usize::MAX);
+			bump(&mut counts, "cut_during_open", 1);
+			match r {
+				Ok(Ok(d2)) => {
+					// no boundary k inside this recovery: it simply completed
+					completed = true;
+					drop(d2);
+				},
+				Ok(Err(_)) => {
+					if mode == Mode::C16 {
+						bump(&mut counts, "faults_injected", 1);
+						bump(&mut counts, "fault_in_open", 1);
+						bump(&mut counts, "reopen_after_fault", 1);
+					}
+				},
+				Err(p) => {
+					violations.push(J::obj().set("sig", J::s(format!("failure=open_panic_under_fault;site={}", pv::scratch::panic_site(&p)))).set("detail", J::s(format!("Db::open panicked when a file operation failed during recovery: {}", p))));
+				},
+			}
+			// judge the directory left behind by the interrupted recovery
+			let mut sub = rng.derive(7);
+			let v = oracle::eval_image(&pre, rec, lo, hi, &mut sub, true);
+			evals += v.evals;
+			bump(&mut counts, "images", 1);
+			bump(&mut counts, "images_inside_step", 1);
+			bump(&mut counts, "nested_recovery_crashes", 1);
+			if let Some((sig, detail)) = v.fail {
+				violations.push(J::obj().set("sig", J::s(sig)).set("detail", J::s(format!("after a crash during recovery: {}", detail))).set("image", J::s("interrupted recovery")));
+			}
+			seen.push(format!("{}|open|{}|k{}", rec.kind, rec.shape_before[act], bucket(k)));
+			let _ = std::fs::remove_dir_all(&pre);
+			return finish(completed, counts, seen, violations, evals);
+		},
+		_ => {
+			completed = true;
+		},
+	}
+	// the crash instant is now; never run destructors of the crashed handle
+	let crashed_handle = db.take();
+	let events_after = interpose::tracker().map(|t| t.counts.clone()).unwrap_or_default();
+	let ev = events_delta(&events_before, &events_after);
+	for e in &ev {
+		let name = match *e {
+			"log_write" => "cut_after_log_write",
+			"log_sync" => "cut_after_log_sync",
+			"msync" => "cut_after_table_flush",
+			"log_truncate" => "cut_after_log_truncate",
+			"log_unlink" => "cut_after_log_unlink",
+			_ => continue,
+		};
+		bump(&mut counts, name, 1);
+	}
+	let files_after: Vec<String> = dbutil::list_files(dir).into_iter().map(|f| f.0).collect();
+	if files_after.iter().any(|f| f.starts_with("index_") && !files_before.contains(f)) {
+		bump(&mut counts, "cut_after_index_create", 1);
+	}
+	if files_before.iter().any(|f| f.starts_with("index_") && !files_after.contains(f)) {
+		bump(&mut counts, "cut_after_index_drop", 1);
+	}
+	if hi > 0 {
+		seen.push(format!("{}|{}|{}|k{}|{}", rec.kind, rec.acts[act].show().split_whitespace().next().unwrap_or(""), rec.shape_before[act], bucket(k), ev.join("+")));
+	}
+
+	if mode == Mode::C16 {
+		let r = fault_flow(rec, dir, crashed_handle, fault_err, act, phase, lo, hi, &mut counts, &mut violations, &mut rng);
+		evals += r;
+		return finish(completed, counts, seen, violations, evals)
+	}
+	if completed && phase == "step" {
+		// no boundary k in this step: nothing new to cut (the boundary image covers the end state)
+		if let Some(d) = crashed_handle {
+			std::mem::forget(d);
+		}
+		return finish(true, counts, seen, violations, evals)
+	}
+	// trace rules (C12): the un-faulted boundary runs execute whole actions under the interposer
+	if power {
+		if let Some(t) = interpose::tracker() {
+			bump(&mut counts, "r1_checks", t.counts.get("r1_checks").copied().unwrap_or(0));
+			bump(&mut counts, "r2_checks", t.counts.get("r2_checks").copied().unwrap_or(0));
+			bump(&mut counts, "sync_events", t.sync_events);
+			if phase == "boundary" || completed {
+				for rv in t.rule_violations.clone() {
+					let rule = if rv.starts_with("R1") { "R1" } else { "R2" };
+					violations.push(J::obj().set("sig", J::s(format!("failure=sync_order_rule;rule={}", rule))).set("detail", J::s(rv)));
+				}
+			}
+		}
+	}
+	interpose::stop();
+	// ---- images
+	let imgs = dir.with_file_name("img");
+	let _ = std::fs::remove_dir_all(&imgs);
+	std::fs::create_dir_all(&imgs).expect("img dir");
+	let inside = phase != "boundary";
+	let has_logs = dbutil::list_files(dir).iter().any(|(n, l)| n.starts_with("log") && *l > 0);
+	if !power {
+		let img = imgs.join("p");
+		pv::scratch::copy_dir(dir, &img).expect("copy image");
+		child::phase(&format!("process-crash image at act {} {} k {}", act, phase, k));
+		let v = oracle::eval_image(&img, rec, lo, hi, &mut rng, true);
+		evals += v.evals;
+		bump(&mut counts, "images", 1);
+		if inside {
+			bump(&mut counts, "images_inside_step", 1);
+		}
+		if has_logs {
+			bump(&mut counts, "images_needing_replay", 1);
+		}
+		if lo > 0 {
+			bump(&mut counts, "images_with_synced_lower_bound", 1);
+		}
+		if let Some(m) = v.m {
+			bump(&mut counts, if m == hi { "recovered_to_newest" } else { "recovered_to_older_prefix" }, 1);
+		}
+		if let Some((sig, detail)) = v.fail {
+			violations.push(J::obj().set("sig", J::s(sig)).set("detail", J::s(detail)).set("image", J::s("process-crash image")));
+		} else if rng.chance(1, 4) && has_logs {
+			// second crash, during the recovery of this image
+			let img2 = imgs.join("p2");
+			pv::scratch::copy_dir(dir, &img2).expect("copy image");
+			let k2 = rng.below(40);
+			let o2 = rec.cfg.options(&img2);
+			parity_db::set_number_of_allowed_io_operations(k2 as usize);
+			let r = pv::scratch::catch(|| Db::open(&o2));
+			parity_db::set_number_of_allowed_io_operations(usize::MAX);
+			match r {
+				Ok(Ok(d)) => drop(d),
+				Ok(Err(_)) => {
+					bump(&mut counts, "nested_recovery_crashes", 1);
+				},
+				Err(p) => violations.push(J::obj().set("sig", J::s(format!("failure=open_panic_under_fault;site={}", pv::scratch::panic_site(&p)))).set("detail", J::s(format!("Db::open panicked when a file operation failed during recovery: {}", p)))),
+			}
+			let v2 = oracle::eval_image(&img2, rec, lo, hi, &mut rng, false);
+			evals += v2.evals;
+			bump(&mut counts, "images", 1);
+			if let Some((sig, detail)) = v2.fail {
+				violations.push(J::obj().set("sig", J::s(sig)).set("detail", J::s(format!("after a second crash at boundary {} of the recovery: {}", k2, detail))).set("image", J::s("nested recovery crash")));
+			}
+		}
+	} else {
+		let d = image::diff(dir, &shadow);
+		let max = tier.pick(8, 40);
+		let vs = image::variants(&d, &mut rng, max, &boundaries);
+		for (vi, v) in vs.iter().enumerate() {
+			let img = imgs.join(format!("w{}", vi));
+			image::materialise(&d, v, &img).expect("materialise");
+			child::phase(&format!("power-loss image at act {} {} k {}: {}", act, phase, k, v.desc));
+			let verdict = oracle::eval_image(&img, rec, lo, hi, &mut rng, vi < 2);
+			evals += verdict.evals;
+			bump(&mut counts, "power_images", 1);
+			bump(&mut counts, "images", 1);
+			if d.total_dirty_pages > 0 {
+				bump(&mut counts, "images_with_dirty_pages", 1);
+			}
+			if d.unsynced_log_bytes > 0 {
+				bump(&mut counts, "images_with_unsynced_log_tail", 1);
+			}
+			if lo > 0 {
+				bump(&mut counts, "images_with_synced_lower_bound", 1);
+			}
+			if let Some((sig, detail)) = verdict.fail {
+				violations.push(
+					J::obj()
+						.set("sig", J::s(sig))
+						.set("detail", J::s(format!("{} [power-loss image: {}; {} dirty pages, {} unsynced log bytes]", detail, v.desc, d.total_dirty_pages, d.unsynced_log_bytes)))
+						.set("image", J::s(v.desc.clone())),
+				);
+				break
+			}
+			let _ = std::fs::remove_dir_all(&img);
+		}
+		if d.total_dirty_pages > 0 {
+			seen.push(format!("{}|dirty{}|tail{}", rec.kind, d.total_dirty_pages.min(30), (d.unsynced_log_bytes > 0) as u8));
+		}
+	}
+	if let Some(d) = crashed_handle {
+		std::mem::forget(d);
+	}
+	finish(completed, counts, seen, violations, evals)
+}
+
+fn bucket(k: u64) -> u64 {
+	match k {
+		0..=3 => k,
+		4..=7 => 4,
+		8..=15 => 8,
+		16..=31 => 16,
+		32..=63 => 32,
+		64..=127 => 64,
+		_ => 128,
+	}
+}
+
+fn finish(completed: bool, counts: BTreeMap<String, u64>, seen: Vec<String>, violations: Vec<J>, evals: u64) -> J {
+	let mut c = J::obj();
+	for (k, v) in counts {
+		c.put(&k, J::i(v));
+	}
+	J::obj().set("completed", J::Bool(completed)).set("counts", c).set("seen", J::strs(seen)).set("violations", J::Arr(violations)).set("evals", J::i(evals))
+}
+
+/// C16: behaviour of the live handle after a step failed, then reopen without the fault.
+#[allow(clippy::too_many_arguments)]
+fn fault_flow(
+	rec: &Recorded,
+	dir: &Path,
+	handle: Option<Db>,
+	fault_err: Option<parity_db::Error>,
+	act: usize,
+	phase: &str,
+	lo: usize,
+	hi: usize,
+	counts: &mut BTreeMap<String, u64>,
+	violations: &mut Vec<J>,
+	rng: &mut Rng,
+) -> u64 {
+	let mut evals = 0;
+	let mut bump = |k: &str| *counts.entry(k.to_string()).or_insert(0) += 1;
+	let db = match handle {
+		Some(d) => d,
+		None => return 0,
+	};
+	let err = match fault_err {
+		Some(e) => e,
+		None => {
+			std::mem::forget(db);
+			return 0
+		},
+	};
+	bump("faults_injected");
+	if let Act::Step(s) = &rec.acts[act] {
+		bump(match s {
+			Step::ProcessCommits => "fault_in_process_commits",
+			Step::ProcessReindex => "fault_in_reindex",
+			Step::FlushLogs => "fault_in_flush",
+			Step::EnactOne | Step::EnactAll => "fault_in_enact",
+			Step::CleanLogs => "fault_in_clean",
+		});
+	}
+	let _ = phase;
+	// the failing call returned the error; a worker would store it
+	child::phase("store_err after fault");
+	db.verif_store_err(err);
+	// reads keep returning committed data (latest state)
+	child::phase("reads after fault");
+	let st = &rec.states[hi];
+	for (ci, c) in rec.cfg.cols.iter().enumerate() {
+		if c.multitree {
+			continue
+		}
+		for k in &rec.pools[ci] {
+			let e = st.model.get(ci as u8, k);
+			let g = match db.get(ci as u8, k) {
+				Ok(g) => g,
+				Err(er) => {
+					violations.push(J::obj().set("sig", J::s("failure=read_error_after_fault")).set("detail", J::s(format!("get returned {} after a background failure", er))));
+					std::mem::forget(db);
+					return evals
+				},
+			};
+			evals += 1;
+			let ok = if c.ref_counted { e.is_none() || g.as_ref() == e } else { g.as_ref() == e };
+			if !ok {
+				violations.push(J::obj().set("sig", J::s("failure=read_mismatch_after_fault")).set(
+					"detail",
+					J::s(format!(
+						"after a failed {} the key {} reads {} but the committed value is {}",
+						rec.acts[act].show(),
+						pv::json::short_bytes(k),
+						g.as_ref().map_or("nothing".into(), |v| pv::json::short_bytes(v)),
+						e.map_or("nothing".into(), |v| pv::json::short_bytes(v))
+					)),
+				));
+				std::mem::forget(db);
+				return evals
+			}
+		}
+	}
+	// later commits are refused
+	child::phase("commit after fault");
+	let probe_col = rec.cfg.cols.iter().position(|c| !c.multitree).unwrap_or(0) as u8;
+	let key = rec.pools[probe_col as usize][0].clone();
+	let val = if rec.cfg.cols[probe_col as usize].preimage { pv::gen::value_for_key(&key, false) } else { vec![1, 2, 3] };
+	if !rec.cfg.cols[probe_col as usize].multitree {
+		let r = db.commit_changes(vec![(probe_col, parity_db::Operation::Set(key, val))]);
+		evals += 1;
+		*counts.entry("commit_refused_checks".to_string()).or_insert(0) += 1;
+		match r {
+			Err(parity_db::Error::Background(_)) => {},
+			Err(e) => violations.push(J::obj().set("sig", J::s("failure=commit_after_fault_wrong_error")).set("detail", J::s(format!("commit after a background failure returned {} instead of a background error", e)))),
+			Ok(()) => violations.push(J::obj().set("sig", J::s("failure=commit_accepted_after_fault")).set("detail", J::s("commit was accepted although a background failure had been reported".to_string()))),
+		}
+	}
+	// shutdown terminates (the parent's watchdog turns a hang into a violation)
+	child::phase("drop after fault");
+	drop(db);
+	interpose::stop();
+	// fault gone: reopen
+	child::phase("reopen after fault");
+	*counts.entry("reopen_after_fault".to_string()).or_insert(0) += 1;
+	let v = oracle::eval_image(dir, rec, lo, hi, rng, true);
+	evals += v.evals;
+	if let Some((sig, detail)) = v.fail {
+		violations.push(J::obj().set("sig", J::s(sig)).set("detail", J::s(format!("after the fault was cleared: {}", detail))).set("image", J::s("directory after error shutdown")));
+	}
+	evals
+}
